@@ -142,6 +142,16 @@ def run(ctx):
             pre = pre_of(order, s)
             full.append(P.two_runs(fam, p, p, items, s, "Equal", feed_b=lambda d_, x, t, pre=pre: d_.update(pre(x, t)), pre_b=pre,
                                    restrict=lambda nums: nums, extra={"order": order}))
+    # NN-DVI on three / four coded features with few levels each (many rows tie on the leading columns, exact repeats are frequent and far apart)
+    for i in range(6 if q else 30):
+        p = P.default_params("NNDVI", rng)
+        d = rng.choice([3, 3, 4])
+        lv = rng.choice([2, 3])
+        items = [[[rng.randint(0, lv - 1 + (1 if (b >= 4 and a == d - 1) else 0)) for a in range(d)] for _ in range(rng.randint(14, 28))] for b in range(rng.randint(7, 9))]
+        s = rng.randrange(10 ** 6)
+        order = ("perm", "asc", "desc")[i % 3]
+        pre = pre_of(order, s)
+        full.append(P.two_runs("NNDVI", p, p, items, s, "Equal", feed_b=lambda d_, x, t, pre=pre: d_.update(pre(x, t)), pre_b=pre, extra={"order": order}))
     # the reference handed over AGAIN in mid-history (a periodic re-arming with the training set): verbatim in one run, with its rows in another order in
     # the other - a reference is a multiset both times
     for fam in ("KdqTreeBatch", "HDDDM", "NNDVI"):
